@@ -15,6 +15,8 @@ use std::sync::Arc;
 pub struct MsgPlan {
     pub val: Val,
     pub use_default: bool,
+    /// build through `as_mut_bytes()` + `assume_init()` instead of `new_in_place()`
+    pub manual_init: bool,
     pub tweaks: Vec<u32>,
     pub len: usize,
     pub pad_start: usize,
@@ -93,7 +95,14 @@ pub fn make_plan<M: ZooMsg + ?Sized>(d: &mut Decider, stats: &mut Stats, nspec: 
     let extra = extras[d.weighted(St::Cfg, &[2, 2, 3, 4, 4, 3, 1])];
     let max_send = base + extra;
     let n_msgs = match nspec {
-        NSpec::UpTo(m) => d.below(St::Cfg, m + 1) as usize,
+        // mostly short sequences; one run in eight a long one (many windows worth of stream)
+        NSpec::UpTo(m) => {
+            if d.chance(St::Cfg, 1, 8) {
+                d.below(St::Cfg, 4 * m + 1) as usize
+            } else {
+                d.below(St::Cfg, m + 1) as usize
+            }
+        }
         NSpec::Exactly(m) => m as usize,
     };
     // how the buffers are constructed: through `::io(pipe, max_msg_len)` (capacity 2x), or
@@ -112,7 +121,7 @@ pub fn make_plan<M: ZooMsg + ?Sized>(d: &mut Decider, stats: &mut Stats, nspec: 
         // fit: largest clamp that emplaces and whose size() <= max_send
         let mut chosen: Option<(MsgPlan, usize)> = None;
         if use_default {
-            let mp = MsgPlan { val: Val::I(0), use_default: true, tweaks: vec![], len: 0, pad_start: 0 };
+            let mp = MsgPlan { val: Val::I(0), use_default: true, manual_init: false, tweaks: vec![], len: 0, pad_start: 0 };
             if let Ok(Ok((size, true, v))) = guarded(|| build_in::<M>(&mut scratch, &mp)) {
                 if size <= max_send {
                     chosen = Some((MsgPlan { val: v, ..mp }, size));
@@ -124,7 +133,7 @@ pub fn make_plan<M: ZooMsg + ?Sized>(d: &mut Decider, stats: &mut Stats, nspec: 
             let mut n = top;
             loop {
                 let v = if n == top { val.clone() } else { val.clamp(n) };
-                let mp = MsgPlan { val: v, use_default: false, tweaks: vec![], len: 0, pad_start: 0 };
+                let mp = MsgPlan { val: v, use_default: false, manual_init: false, tweaks: vec![], len: 0, pad_start: 0 };
                 match guarded(|| build_in::<M>(&mut scratch, &mp)) {
                     Ok(Ok((size, true, _))) if size <= max_send => {
                         if n < top {
@@ -153,7 +162,7 @@ pub fn make_plan<M: ZooMsg + ?Sized>(d: &mut Decider, stats: &mut Stats, nspec: 
             Some(x) => x,
             None => {
                 // fall back to the default value (always fits by construction of max_send)
-                let mp = MsgPlan { val: Val::I(0), use_default: true, tweaks: vec![], len: 0, pad_start: 0 };
+                let mp = MsgPlan { val: Val::I(0), use_default: true, manual_init: false, tweaks: vec![], len: 0, pad_start: 0 };
                 match guarded(|| build_in::<M>(&mut scratch, &mp)) {
                     Ok(Ok((size, true, v))) => (MsgPlan { val: v, ..mp }, size),
                     _ => continue,
@@ -193,6 +202,7 @@ pub fn make_plan<M: ZooMsg + ?Sized>(d: &mut Decider, stats: &mut Stats, nspec: 
             }
         }
         mp.len = size;
+        mp.manual_init = !mp.use_default && d.chance(St::Msgs, 1, 8);
         mp.pad_start = pad_start_of::<M>(&mp, cap, size);
         if mp.pad_start < size {
             stats[P::msg_with_trailing_padding as usize] += 1;
@@ -245,7 +255,17 @@ pub fn sender_blocking<M: ZooMsg + ?Sized>(sh: Shared, plan: Arc<Plan>) {
                     return;
                 }
             };
-            let built = if mp.use_default { ug.default_in_place() } else { ug.new_in_place(emp::<M>(&mp.val)) };
+            let built = if mp.use_default {
+                ug.default_in_place()
+            } else if mp.manual_init {
+                let mut ug = ug;
+                match M::emplace_val(ug.as_mut_bytes(), &mp.val) {
+                    Ok(_) => Ok(unsafe { ug.assume_init() }),
+                    Err(e) => Err(e),
+                }
+            } else {
+                ug.new_in_place(emp::<M>(&mp.val))
+            };
             let mut g = match built {
                 Ok(g) => g,
                 Err(e) => {
@@ -458,7 +478,17 @@ pub async fn sender_async<M: ZooMsg + ?Sized>(sh: Shared, plan: Arc<Plan>) {
                 return;
             }
         };
-        let built = if mp.use_default { ug.default_in_place() } else { ug.new_in_place(emp::<M>(&mp.val)) };
+        let built = if mp.use_default {
+            ug.default_in_place()
+        } else if mp.manual_init {
+            let mut ug = ug;
+            match M::emplace_val(ug.as_mut_bytes(), &mp.val) {
+                Ok(_) => Ok(unsafe { ug.assume_init() }),
+                Err(e) => Err(e),
+            }
+        } else {
+            ug.new_in_place(emp::<M>(&mp.val))
+        };
         let mut g = match built {
             Ok(g) => g,
             Err(e) => {
